@@ -3,6 +3,7 @@
 package c04
 
 import (
+	"strconv"
 	"fmt"
 	"math/rand"
 
@@ -17,6 +18,12 @@ func init() {
 }
 
 func gen(rng *rand.Rand, tier core.Tier, emit core.Emit) {
+	// concurrent reporters: every reply must be its own sender's
+	if tier == core.Thorough {
+		emit("wpar", "8", "1500")
+	} else {
+		emit("wpar", "8", "250")
+	}
 	// histories through the real reporter component (fx wiring, UDP server, handler goroutines) over loopback sockets
 	nw := 12
 	if tier == core.Thorough {
@@ -68,6 +75,11 @@ func gen(rng *rand.Rand, tier core.Tier, emit core.Emit) {
 			default:
 				uc = "pop|3|fail"
 			}
+			if rng.Intn(6) == 0 {
+				// another master node with a clock a few seconds ahead refreshed the record: its refresh time lies in this
+				// node's future; the next heartbeat handled here is refreshed at THIS node's now all the same
+				uc = fmt.Sprintf("call|update!%s/10481/%d/%d/%d!over", addr, 2|4|rng.Intn(2)*64, 50, world.Epoch.UnixNano()+int64(1+rng.Intn(20))*256000000000)
+			}
 			ops = append(ops, []string{"uc", uc})
 			if rng.Intn(2) == 0 {
 				ops = append(ops, reputil.Adv(rng))
@@ -104,6 +116,15 @@ func exec(op string, args []string) []string {
 	if op == "ucf" && len(args) == 3 {
 		var out []string
 		if txt, ok := core.Guard(func() { out = ucops.RunUC(world.DefaultOptions(), args[0], args[1], args[2]) }); !ok {
+			return []string{fmt.Sprintf("harness-panic:%s", txt)}
+		}
+		return out
+	}
+	if op == "wpar" && len(args) == 2 { // concurrent reporters against the real reporter component
+		var out []string
+		k, _ := strconv.Atoi(args[0])
+		rounds, _ := strconv.Atoi(args[1])
+		if txt, ok := core.Guard(func() { out = reputil.RunWirePar(k, rounds) }); !ok {
 			return []string{fmt.Sprintf("harness-panic:%s", txt)}
 		}
 		return out
